@@ -205,7 +205,7 @@ def touchUni (s : State) : State :=
 /-! ### queries -/
 
 def glyphsWithOutlines (s : State) : List String :=
-  (s.loaded.filter (fun p => p.1 ∉ s.sched ∧ p.2.1.outlineLoaded)).map Prod.fst ++
+  (s.loaded.filter (fun p => p.1 ∉ s.sched ∧ p.2.1.outlineFast)).map Prod.fst ++
   (s.disk.filter (fun p => ¬ isLoaded s p.1 ∧ p.1 ∉ s.sched ∧ p.2.outlineFast)).map Prod.fst
 
 /-- pairs (base glyph, referencing glyph) -/
